@@ -84,12 +84,16 @@ func followsEmptyLine(meta *ast.Meta) bool {
 	return len(meta.Leading) > 0 && meta.Leading[0].PreviousEmptyLines > 0
 }
 
-// Return comment is inline comment that has "/* ... */" syntax
+// Return true when every comment has the "/* ... */" syntax: the comments can be printed
+// inline and the line can go on behind them. A "#" or "//" comment among them runs to the
+// end of the line ("} /* a */ // b" must not be followed by the else keyword).
 func isInlineComment(comments ast.Comments) bool {
-	if len(comments) == 0 {
-		return true
+	for i := range comments {
+		if !strings.HasPrefix(comments[i].Value, "/*") {
+			return false
+		}
 	}
-	return strings.HasPrefix(comments[0].Value, "/*")
+	return true
 }
 
 // Get latest line offset (character length) from current buffer
